@@ -26,9 +26,10 @@ CLAIM = ('The order, confidence and guards of the encoding sources in determineE
          "builder's late-<meta> decision table (charset / http-equiv=content-type case-insensitively with "
          "content / nothing else, only while tentative) equals the standard's; the prescan ends a quoted "
          'attribute value at the quote that opened it; the content-attribute extractor skips white space after '
-         '`charset=`.')
-NOT_DECIDED = ('the rest of the byte-level prescan (tag skipping, comment handling, attribute-name scanning); '
-               'equality of the tree with the tree of the decoded bytes.')
+         '`charset=`. The prescan parses the attributes of start and end tags alike and tests the first byte '
+         'of a tag name; the BOM table holds exactly utf-8, utf-16le and utf-16be.')
+NOT_DECIDED = ('the rest of the byte-level prescan (comment handling, attribute-name scanning, content= grammar '
+               'beyond the clauses above); equality of the tree with the tree of the decoded bytes.')
 MODULES = ["_inputstream.py", "html5parser.py"]
 REL = "_inputstream.py"
 
@@ -346,7 +347,12 @@ def bom_table(ctx):
     r.rule("C06.10", "the BOM table holds exactly the encodings BOM sniffing is defined for (utf-8, utf-16le, utf-16be)", floor=3)
     f = ctx.repo.func(REL, "HTMLBinaryInputStream.detectBOM")
     dicts = [s.value for s in walk_no_nested(f.node) if isinstance(s, ast.Assign) and isinstance(s.value, ast.Dict) and
-             all("BOM" in norm(k) for k in s.value.keys)]
+             s.value.keys and all("BOM" in norm(k) for k in s.value.keys)]
+    if not dicts:
+        # a table hoisted to module level and read in detectBOM
+        used = {x.id for x in ast.walk(f.node) if isinstance(x, ast.Name)}
+        dicts = [s.value for s in f.module.tree.body if isinstance(s, ast.Assign) and isinstance(s.value, ast.Dict) and s.value.keys and
+                 all("BOM" in norm(k) for k in s.value.keys) and isinstance(s.targets[0], ast.Name) and s.targets[0].id in used]
     if len(dicts) != 1:
         r.idiom("C06.10", False, "bom-table", f.where, "detectBOM: the BOM table was not found")
         return
